@@ -1121,6 +1121,26 @@ class Replayer:
                         pass
                     except Exception as e:
                         fails.append(f"{q.__name__}({u}) outside raised {type(e).__name__}, not ValueError")
+        if self.mode.exact and self.mode.name == "fraction" and not fails:
+            # nodes an "epsilon" away from a knot: same order relations as the interior node of that span, hence the
+            # same answers; exact rational arithmetic must not confuse them with the knot itself
+            knots = sorted({fr(x) for x in want["U"]})
+            eps = Fraction(1, 10 ** 30)
+            for u, row in good:
+                if row["mult"] != 0:
+                    continue
+                a = max(k for k in knots if k < u)
+                b = min(k for k in knots if k > u)
+                for v in (b - (b - a) * eps, a + (b - a) * eps):
+                    try:
+                        if obj.valid([v]) is not True and obj.valid([v]) != True:
+                            fails.append(f"valid([{v}]) is not True")
+                        elif obj.span(v) != row["span"]:
+                            # (mult is not asked: it counts occurrences within the library's documented 1e-9 tolerance)
+                            fails.append(f"span just beside a knot: span(knot -/+ 1e-30 of the span, about {float(v)!r}) = {obj.span(v)}, "
+                                         f"spec {row['span']}: U[k] <= u < U[k+1] is an exact relation")
+                    except Exception as e:
+                        fails.append(f"span/mult beside a knot raised {type(e).__name__}: {e}")
         if good and not fails:  # vector forms answer in order
             us = [u for u, _ in good]
             try:
